@@ -547,6 +547,53 @@ fn main() {
             println!(";; valid: {:?}", vharness::dec::module::validate(&bytes));
             0
         }
+        Some("adopt-tape") if args.len() >= 3 => {
+            // adopt-tape <ID> <file> [raw]: run a libFuzzer artifact (a tape; with `raw`: a raw
+            // input for C03) in a fresh process of THIS build; a reproducible failure that is no
+            // known finding is saved as a replay file and reported
+            let id = args[1].clone();
+            let mut tape = std::fs::read(&args[2]).unwrap_or_default();
+            if args.get(3).map(|s| s == "raw").unwrap_or(false) {
+                let mut t = b"RAW\0".to_vec();
+                t.extend(tape);
+                tape = t;
+            }
+            let findings = Findings::load(&format!("{}/known_findings.json", root()));
+            let r = run_isolated(&id, "main", &tape, "adopt");
+            match r.outcome.as_str() {
+                "fail" | "abort" => {
+                    if let Some(k) = findings.matches(&id, &r.sig) {
+                        println!("fuzz artifact {} reproduces known finding {}", args[2], k.id);
+                        0
+                    } else {
+                        let v = Violation { sig: r.sig.clone(), detail: r.detail, tape, mode: Mode::Main, rendered: r.rendered };
+                        let p = save_replay(&root(), &id, &v);
+                        println!("VIOLATION property={} replay={}   ({}) [found by libFuzzer]", id, p, r.sig);
+                        1
+                    }
+                }
+                "infra" => 2,
+                _ => {
+                    println!("fuzz artifact {} does not fail on the harness build ({}): not reported", args[2], r.outcome);
+                    0
+                }
+            }
+        }
+        Some("fuzz-evidence") if args.len() >= 5 => {
+            // fuzz-evidence <ID> <execs> <crashes> <note>: record the libFuzzer stage in the evidence file
+            let path = format!("{}/evidence/{}.json", root(), args[1]);
+            if let Some(mut v) = std::fs::read_to_string(&path).ok().and_then(|t| serde_json::from_str::<Value>(&t).ok()) {
+                v["coverage"]["fuzz_execs"] = json!(args[2].parse::<u64>().unwrap_or(0));
+                v["coverage"]["fuzz_artifacts"] = json!(args[3].parse::<u64>().unwrap_or(0));
+                v["coverage"]["fuzz_note"] = json!(args[4]);
+                let _ = std::fs::write(&path, serde_json::to_string_pretty(&v).unwrap());
+            }
+            0
+        }
+        Some("tape-len") if args.len() >= 2 => {
+            println!("{}", props::get(&args[1]).map(|d| d.tape_len()).unwrap_or(2048));
+            0
+        }
         Some("compgen") if args.len() >= 2 => {
             // compgen <n>: validity statistics of the component generator
             use vharness::gen::component::GenComp;
